@@ -146,7 +146,7 @@ class TextEngine:
         for i in range(k):
             parts.append(rng.choice(WORDS, "word"))
             if i < k - 1:
-                parts.append(rng.choice([" ", " ", " ", "  ", "\t", "\n", " - "], "sep"))
+                parts.append(rng.choice([" ", " ", " ", "  ", "\t", "\n", " - ", " \t ", " \n "], "sep"))
         s = "".join(parts)
         if rng.chance(0.15, "lead"):
             s = " " + s
@@ -360,7 +360,7 @@ class TextEngine:
         return []
 
     # ================================================================== C09
-    REGEX_FAMILY = ["word", "class", "w+", "alt", "pair", "nomatch", "space_word"]
+    REGEX_FAMILY = ["word", "class", "w+", "alt", "pair", "nomatch", "space_word", "across_blanks", "across_blanks"]
 
     def _gen_c09(self, rng):
         root = lx(self.el)
@@ -390,6 +390,8 @@ class TextEngine:
                 return re.escape(w[:2]) if len(w) >= 2 else re.escape(w)
             if fam == "space_word":
                 return " " + re.escape(w)
+            if fam == "across_blanks":
+                return r"\w+ +\w+"  # two words and the run of blanks between them (one text node, as other producers write it)
             return "qqq9"
 
         if what in ("set_span", "set_link"):
@@ -497,6 +499,8 @@ class TextEngine:
             feats.append("has_spans")
         if any(e.tag in (xmlref.X_S, xmlref.X_TAB, xmlref.X_LB) for e in root.iter()):
             feats.append("has_ws_elements")
+        if "  " in concat:
+            feats.append("raw_blank_run")  # blanks side by side in the character data (in one text node or across the edge of an inline element): left there by a deletion, or by another producer
         self.n_ops += 1
         handler = getattr(self, "_c09_" + what)
         vs = handler(op, el, root, pre_xml, T, nodes, concat, noted, feats)
@@ -827,16 +831,25 @@ class TextEngine:
 
     def _c09_delete_inline(self, op, el, root, pre_xml, T, nodes, concat, noted, feats):
         items = el.get_spans() + el.get_links()
+        # ... or a white-space element: what stood around it ends up in one text node, blanks side by side
+        items += el.get_elements("descendant::text:tab") + el.get_elements("descendant::text:line-break") + el.get_elements("descendant::text:s")
         if not items:
             return []
         target = items[op["idx"] % len(items)]
         # independent expectation: remove that element, keep its tail
         copy = etree.fromstring(pre_xml)
-        path = root.getroottree().getpath(lx(target))
-        try:
-            victim = copy.getroottree().xpath(path.replace(root.getroottree().getpath(root), copy.getroottree().getpath(copy), 1))[0]
-        except Exception:
+        # the same node in the copy: by child indexes from the root
+        idxs = []
+        node = lx(target)
+        while node is not root and node.getparent() is not None:
+            idxs.append(node.getparent().index(node))
+            node = node.getparent()
+        if node is not root:
             return []
+        victim = copy
+        for i in reversed(idxs):
+            victim = victim[i]
+        self.stats.probe("c09_inline_deleted:" + victim.tag.rsplit("}", 1)[-1])
         parent = victim.getparent()
         tail = victim.tail or ""
         prev = victim.getprevious()
